@@ -345,7 +345,7 @@ Proof.
       split; [|split; auto].
       + split; [|cbn; lia]. intros k. apply (deps_in_dtok hub' _ k Hd).
       + cbn [t_main]. specialize (Hlen (c_main c)). lia. }
-  destruct o as [k vs|full b fail core|b fail core k ds vs]; cbn [step] in H.
+  destruct o as [k vs|full b fail core|b fail core k ds vs|b fail core k ds vs]; cbn [step] in H; [| | |destruct Hb].
   - injection H as <- _ _. intros tk Htk. cbn [s_hub s_job] in *. destruct (Hj tk Htk) as (Hok & Hd & Hm).
     split; auto. split; [now apply deps_in_append|]. pose proof (lenz_append (s_hub s) k vs (c_main c)). lia.
   - destruct (run_events v c (s_hub s) (s_job s) full b fail core) as [evs0 ok0] eqn:Er.
@@ -413,8 +413,19 @@ Lemma self_run_spec : forall v c s r s' evs ok,
 Proof.
   intros v c s r s' evs ok Hv Hb Hwf Hj Hstep. set (cfg := cfg_of c) in *.
   pose proof Hv as ((Hs & Hp & Hw) & Hsk).
-  assert (Hbok : batch_ok cfg (op_of c (TRun r))).
-  { cbn [op_of]. unfold wf_run in Hwf. destruct (tr_mid r) as [[[k ds] vs]|]; cbn [batch_ok]; auto.
+  assert (Hop : op_of c (TRun r) =
+                match tr_mid r with
+                | None => ORun (tr_full r) (tc_batch c) (tr_fail r) (tr_core r)
+                | Some (k, ds, vs) => ORunMid (tc_batch c) (tr_fail r) (tr_core r) k ds vs
+                end).
+  { cbn [op_of]. unfold wf_run in Hwf. destruct (tr_mid r) as [[[k ds] vs]|]; auto.
+    apply andb_true_iff in Hwf. destruct Hwf as [-> _]. reflexivity. }
+  rewrite Hop in Hstep.
+  assert (Hbok : batch_ok cfg (match tr_mid r with
+                               | None => ORun (tr_full r) (tc_batch c) (tr_fail r) (tr_core r)
+                               | Some (k, ds, vs) => ORunMid (tc_batch c) (tr_fail r) (tr_core r) k ds vs
+                               end)).
+  { unfold wf_run in Hwf. destruct (tr_mid r) as [[[k ds] vs]|]; cbn [batch_ok]; auto.
     apply andb_true_iff in Hwf. destruct Hwf as [_ Hne]. apply negb_true_iff, Nat.eqb_neq in Hne. split; auto. }
   pose proof (step_jinv v cfg s _ s' evs ok Hv Hbok Hj Hstep) as Hj'.
   pose proof (step_main v cfg s _ s' evs ok Hstep) as [Hmain _].
@@ -439,6 +450,7 @@ Proof.
   change (tr_main (self_run r evs ok (s_job s'))) with (fst (tok_obs (s_job s'))).
   change (tr_deps (self_run r evs ok (s_job s'))) with (snd (tok_obs (s_job s'))).
   change (tr_full (self_run r evs ok (s_job s'))) with (tr_full r).
+  change (tr_mid (self_run r evs ok (s_job s'))) with (tr_mid r).
   change (tr_ok (self_run r evs ok (s_job s'))) with ok.
   change (tr_emitted (self_run r evs ok (s_job s'))) with (sortN (concat (ev_ents evs))).
   destruct (s_job s') as [tk'|] eqn:Ejob'; cbn [tok_obs fst snd]; [|reflexivity].
@@ -485,22 +497,33 @@ Proof.
       assert (Hjob : s_job s = Some tk) by (destruct (tr_full r); [discriminate|auto]).
       destruct (Hj tk Hjob) as (Hok & Hdin & Hmle).
       unfold run_events in Er. rewrite Ej in Er.
-      apply cut_calls_prefix in Er. destruct Er as (l1 & l2 & Hsp & -> & _).
-      apply map_eq_app' in Hsp. destruct Hsp as (cs1 & cs2 & Hcs & -> & _).
+      apply cut_calls_prefix in Er. destruct Er as (l1 & l2 & Hsp & -> & Hokcut).
+      apply map_eq_app' in Hsp. destruct Hsp as (cs1 & cs2 & Hcs & -> & Hl2).
       rewrite map_map in *. change (map (fun x : call => ev_of_pair (k_ents x, Some (k_tok x)))) with (map ev_of_call) in *.
       assert (Htk' : tk' = tok_after cs1 tk).
       { rewrite <- Es' in Ejob'. cbn [s_job] in Ejob'. rewrite Hjob, last_tok_calls in Ejob'. now injection Ejob'. }
       rewrite Hhub'.
+      assert (Hcaught : (if ok0 then forallb (fun dp => negb (Z.eqb (tok_get (t_deps tk') (d_ds dp)) (tok_get (t_deps tk) (d_ds dp)))
+                                                       || Z.eqb (tok_get (t_deps tk') (d_ds dp)) (lenz (feed_of (s_hub s) (d_ds dp))))
+                                            (c_deps cfg) else true) = true).
+      { destruct ok0; [|reflexivity]. specialize (Hokcut eq_refl). rewrite Hokcut in Hl2. symmetry in Hl2. apply map_eq_nil in Hl2. subst cs2.
+        rewrite app_nil_r in Hcs. apply forallb_forall. intros dp Hdp.
+        fold (dtok tk' (d_ds dp)). fold (dtok tk (d_ds dp)).
+        destruct (Z.eqb_spec (dtok tk' (d_ds dp)) (dtok tk (d_ds dp))) as [Heq|]; [|reflexivity]. cbn [negb orb].
+        apply Z.eqb_eq. rewrite Heq. rewrite Htk', <- Hcs in Heq.
+        pose proof (run_fixpoint v cfg (s_hub s) (tc_batch c) Hs Hp Hsk Hb tk dp Hok Hdp Heq) as Hge.
+        pose proof (deps_in_dtok (s_hub s) tk (d_ds dp) Hdin). lia. }
+      cbv iota.
       destruct cs1 as [|k0 cs1r] using rev_ind.
       * (* nothing persisted: the token is the one the run started with *)
-        cbn [tok_after fold_left] in Htk'. subst tk'. apply andb_true_iff. split.
+        cbn [tok_after fold_left] in Htk'. subst tk'. rewrite Hcaught, andb_true_r. apply andb_true_iff. split.
         -- apply forallb_forall. intros dp Hdp. unfold dep_covered. apply forallb_nil_range, range_tails_empty. lia.
         -- unfold main_covered. apply forallb_nil_range, range_tails_empty. lia.
       * clear IHcs1r. rewrite tok_after_app in Htk'. cbn [tok_after fold_left] in Htk'. subst tk'.
         rewrite <- app_assoc in Hcs. cbn [app] in Hcs.
         assert (HE : forall m, In m (ents (cs1r ++ [k0])) -> In m (sortN (concat (ev_ents (map ev_of_call (cs1r ++ [k0])))))).
         { intros m Hm. apply self_emitted_sup. now rewrite ents_of_calls. }
-        apply andb_true_iff. split.
+        rewrite Hcaught, andb_true_r. apply andb_true_iff. split.
         -- apply forallb_forall. intros dp Hdp.
            exact (inc_dep_covered v cfg (s_hub s) (tc_batch c) Hs Hp Hsk Hb tk cs1r k0 cs2 _ dp Hok Hcs HE Hdp).
         -- exact (inc_main_covered v cfg (s_hub s) (tc_batch c) Hs Hp Hsk Hb tk cs1r k0 cs2 _ Hok Hcs HE).
@@ -572,7 +595,8 @@ Proof.
   assert (He : (if ok then tr_emitted r else sortN (concat (ev_ents evs))) = sortN (concat (ev_ents evs))).
   { destruct ok; auto. apply nlist_eqb_eq in Hem. auto. }
   rewrite He. destruct (after_append evs) as [late|].
-  - apply andb_true_iff in Hmid. destruct Hmid as [-> Hl]. f_equal. destruct ok; auto. apply nlist_eqb_eq in Hl. auto.
+  - apply andb_true_iff in Hmid. destruct Hmid as [-> Hl]. f_equal.
+    destruct (ok && tr_full r); auto. apply nlist_eqb_eq in Hl. auto.
   - apply negb_true_iff in Hmid. rewrite Hmid. reflexivity.
 Qed.
 
@@ -646,19 +670,34 @@ Proof.
   - apply run_agree_facts in Hr. destruct Hr as (Hmd & Hok & Hem).
     assert (Hgoal : s_hub s' = run_hub (s_hub s) r /\
                     forall x, In x (concat (ev_ents evs)) -> In x (map v_id (feed_of (s_hub s') (tc_main c)))).
-    { unfold run_hub. destruct (tr_mid r) as [[[k ds] vs]|]; cbn [step] in E.
-      - destruct (run_events v (cfg_of c) (s_hub s) (s_job s) true (tc_batch c) (tr_fail r) (tr_core r)) as [evs0 ok0] eqn:Er.
-        destruct (insert_mid evs0 k (EvAppend ds vs)) as [evs1 ins] eqn:Ei. injection E as <- <- <-. cbn [s_hub].
+    { split; [|intros x Hx; apply ev_ents_sub in Hx; exact (proj1 (step_main _ _ _ _ _ _ _ E) x Hx)].
+      assert (Hfm : forall job k ds vs evs0 ok0 evs1 ins,
+                run_events v (cfg_of c) (s_hub s) job true (tc_batch c) (tr_fail r) (tr_core r) = (evs0, ok0) ->
+                insert_mid evs0 k (EvAppend ds vs) = (evs1, ins) ->
+                ins = match after_append evs1 with Some _ => true | None => false end).
+      { intros job k ds vs evs0 ok0 evs1 ins Er Ei.
         pose proof (no_append_run_events _ _ _ _ _ _ _ _ _ _ Er) as Hna.
         destruct (insert_mid_spec _ _ _ _ _ Ei) as [[-> ->]|(-> & e1 & e2 & -> & ->)].
-        + rewrite (after_append_none _ Hna) in Hmd. rewrite Hmd. split; auto. intros x Hx.
-          apply ev_ents_sub in Hx. exact (run_events_main _ _ _ _ _ _ _ _ _ _ Er x Hx).
-        + apply no_append_app in Hna. rewrite (after_append_mid _ _ _ _ (proj1 Hna)) in Hmd. rewrite Hmd.
-          split; auto. intros x Hx. apply ev_ents_insert in Hx.
-          apply (main_ids_append (s_hub s) (cfg_of c) ds vs). exact (run_events_main _ _ _ _ _ _ _ _ _ _ Er x Hx).
-      - destruct (run_events v (cfg_of c) (s_hub s) (s_job s) (tr_full r) (tc_batch c) (tr_fail r) (tr_core r)) as [evs0 ok0] eqn:Er.
-        injection E as <- <- <-. cbn [s_hub]. split; auto. intros x Hx. apply ev_ents_sub in Hx.
-        exact (run_events_main _ _ _ _ _ _ _ _ _ _ Er x Hx). }
+        - now rewrite (after_append_none _ Hna).
+        - apply no_append_app in Hna. now rewrite (after_append_mid _ _ _ _ (proj1 Hna)). }
+      unfold run_hub. destruct (tr_mid r) as [[[k ds] vs]|].
+      - destruct (tr_full r); cbn [step] in E.
+        + destruct (run_events v (cfg_of c) (s_hub s) (s_job s) true (tc_batch c) (tr_fail r) (tr_core r)) as [evs0 ok0] eqn:Er.
+          destruct (insert_mid evs0 k (EvAppend ds vs)) as [evs1 ins] eqn:Ei. injection E as <- <- <-. cbn [s_hub].
+          rewrite Hmd, <- (Hfm _ _ _ _ _ _ _ _ Er Ei). reflexivity.
+        + destruct (s_job s) as [tk|].
+          * destruct (cut_evs (inc_pages_mid v (cfg_of c) (s_hub s) (append_hub (s_hub s) ds vs) (tc_batch c)
+                                (fuel_of (s_hub s) (cfg_of c)) tk 0 k (EvAppend ds vs) false) (tr_fail r) 0) as [evs0 ok0].
+            injection E as <- <- <-. cbn [s_hub]. rewrite Hmd.
+            assert (Hha : has_append evs0 = match after_append evs0 with Some _ => true | None => false end).
+            { clear. induction evs0 as [|a l IHl]; cbn; auto. destruct a; auto. }
+            now rewrite Hha.
+          * destruct (run_events v (cfg_of c) (s_hub s) None true (tc_batch c) (tr_fail r) (tr_core r)) as [evs0 ok0] eqn:Er.
+            destruct (insert_mid evs0 k (EvAppend ds vs)) as [evs1 ins] eqn:Ei. injection E as <- <- <-. cbn [s_hub].
+            rewrite Hmd, <- (Hfm _ _ _ _ _ _ _ _ Er Ei). reflexivity.
+      - cbn [step] in E.
+        destruct (run_events v (cfg_of c) (s_hub s) (s_job s) (tr_full r) (tc_batch c) (tr_fail r) (tr_core r)) as [evs0 ok0].
+        injection E as <- _ _. reflexivity. }
     destruct Hgoal as [Hhub Hsub]. rewrite <- Hhub, IH, andb_true_r.
     destruct (tr_ok r) eqn:Eok; [|reflexivity]. cbn [negb orb].
     unfold subsetN. apply forallb_forall. intros x Hx. apply memN_In. rewrite (Hem Hok) in Hx.
